@@ -5,7 +5,8 @@ import GoNeat.Driver.Population
 import GoNeat.Driver.Activations
 import GoNeat.Driver.Solver
 import GoNeat.Driver.Depth
+import GoNeat.Driver.Genesis
 
 namespace GoNeat.Driver
-def allOps : List (String × Handler) := geneticsOps ++ operatorOps ++ populationOps ++ activationsOps ++ solverOps ++ depthOps
+def allOps : List (String × Handler) := geneticsOps ++ operatorOps ++ populationOps ++ activationsOps ++ solverOps ++ depthOps ++ genesisOps
 end GoNeat.Driver
